@@ -123,7 +123,7 @@ def run(rep):
             continue
         if c.model is None:
             continue
-        if ec.impl_core(c) != c.model:
+        if ec.impl_core(c) != ec.model_core(c):
             corr_bad.append(c)
         e = c.impl.split(' ')
         if e[0] != 'MATCH':
